@@ -18,6 +18,22 @@ def exprMode (ma mb : Mode) : Mode :=
 theorem exprMode_cases (ma mb : Mode) : exprMode ma mb = .extended ∨ exprMode ma mb = .direct := by
   unfold exprMode; split <;> simp
 
+/-- the mode of the RESULT: a value above 255 computed from direct-page operands is extended (fix A13) -/
+def resMode (ma mb : Mode) (z : Int) : Mode := if z > 255 then .extended else exprMode ma mb
+
+theorem resMode_cases (ma mb : Mode) (z : Int) : resMode ma mb z = .extended ∨ resMode ma mb z = .direct := by
+  unfold resMode; split
+  · exact Or.inl rfl
+  · exact exprMode_cases ma mb
+
+/-- `resMode` is what the model computes -/
+theorem resMode_eq (ma mb : Mode) (z : Int) :
+    (if (decide (z > 255) && exprMode ma mb == Mode.direct) = true then Mode.extended else exprMode ma mb) = resMode ma mb z := by
+  unfold resMode
+  by_cases hz : z > 255
+  · rcases exprMode_cases ma mb with h | h <;> simp [hz, h]
+  · simp [hz]
+
 /-- the non-negative result value the model builds for mode `m` (extended or direct) -/
 def posNum (m : Mode) (n : Nat) : Value :=
   .numeric n (if m = .extended then some 4 else if n < 256 then some 2 else none) m false
@@ -67,18 +83,19 @@ theorem resolve_expr_numeric (a b : Nat) (ha hb : Option Nat) (ma mb : Mode) (na
     (Value.expr (.numeric a ha ma na) (.numeric b hb mb nb) op m ae).resolve t =
       (match modelArith op a b with
        | none => .error .other
-       | some z => numResult (exprMode ma mb) z) := by
-  have hm := exprMode_cases ma mb
+       | some z => numResult (resMode ma mb z) z) := by
   simp only [Value.resolve, Value.isExtendedLike, Value.mode]
   change (match modelArith op a b with
     | none => (.error .other : R Value)
     | some z => match numericOfStr (if z < 0 then '-' :: (toString z.natAbs).toList else (toString z.natAbs).toList)
-        none (exprMode ma mb) with
+        none (if (decide (z > 255) && exprMode ma mb == Mode.direct) = true then Mode.extended else exprMode ma mb) with
       | .ok nv => (.ok nv : R Value)
       | .error _ => .error .other) = _
   cases modelArith op a b with
   | none => rfl
-  | some z => exact numericOfStr_int _ hm z
+  | some z =>
+    simp only [resMode_eq]
+    exact numericOfStr_int _ (resMode_cases ma mb z) z
 
 /-! ### symbols inside expressions -/
 
